@@ -22,6 +22,9 @@ func init() {
 				r.Rule("R09h", "STORE-EVERY-ROOT: the loop of the from-roots constructor stores a node for every root position it is given, the empty roots included (the addition code requires a node at every root position it merges over)")
 				checkStoreEveryRecord(p, r, "R09h", []string{"NewMapPollardFromRoots"}, 1)
 			}},
+			{ID: "R09j", Statement: "the deletion-undo moves climbed subtrees back by geometry, not by what is stored", Run: func(p *Program, r *Report) {
+				checkEmptyRootByGeometry(p, r, "R09j")
+			}},
 			{ID: "R09i", Statement: "a recomputed node does not inherit a keep flag", Run: func(p *Program, r *Report) {
 				r.Rule("R09i", "RECOMPUTED-NODE-FLAG: the keep flag stored with a node whose hash was just recomputed is the forest's configuration, a constant or the flag already stored at that position - never the flag of another node or of a parameter")
 				checkRecomputedNodeFlag(p, r, "R09i")
